@@ -54,8 +54,15 @@ Proof.
   intros (_ & _ & [-> | (Hs & Hr & _)]) H; [reflexivity|]. rewrite Hs, Hr in H. discriminate.
 Qed.
 
-(* trees: slices, arrays, structs, maps (keys shared) and interface slots over related leaves;
-   container types are not declared safe *)
+Section HK.
+(* hk: an error hook (RegisterRedactErrorFn) is installed; error values are then rendered by the
+   hook's script, which this development does not relate *)
+Variable hk : bool.
+
+(* trees: slices, arrays, structs, maps (keys shared), interface slots and pointers over related
+   leaves; container types are not declared safe; values of user types whose String / Error /
+   GoString method returns related strings (no Formatter, SafeFormatter, SafeMessager; value
+   receivers or non-nil pointers; methods that return rather than panic) *)
 Inductive vrel : value -> value -> Prop :=
 | vr_leaf v1 v2 : lrel v1 v2 -> vrel v1 v2
 | vr_slice t n es1 es2 : treg t = false -> tsv t = false -> Forall2 vrel es1 es2 -> vrel (VSlice t n es1) (VSlice t n es2)
@@ -67,7 +74,13 @@ Inductive vrel : value -> value -> Prop :=
 | vr_iface_nil tn : vrel (VIface tn None) (VIface tn None)
 | vr_iface tn a b : vrel a b -> vrel (VIface tn (Some a)) (VIface tn (Some b))
 | vr_ptr_nil t u : treg t = false -> tsv t = false -> vrel (VPtr t u None) (VPtr t u None)
-| vr_ptr t u a b : treg t = false -> tsv t = false -> vrel a b -> vrel (VPtr t u (Some a)) (VPtr t u (Some b)).
+| vr_ptr t u a b : treg t = false -> tsv t = false -> vrel a b -> vrel (VPtr t u (Some a)) (VPtr t u (Some b))
+| vr_user t i r1 r2 x1 x2 rest1 rest2 :
+    treg t = false -> tsv t = false ->
+    iFormatter i = false -> iSafeFormatter i = false -> iSafeMessager i = false ->
+    (iError i = true -> hk = false) ->
+    (x1 = x2 \/ srel x1 x2) -> vrel r1 r2 ->
+    vrel (VUser t i false r1 (ARet x1 :: rest1)) (VUser t i false r2 (ARet x2 :: rest2)).
 
 Lemma vrel_leaf_inv v1 v2 : vrel v1 v2 -> leafish v1 = true -> lrel v1 v2.
 Proof. intros H L. inversion H; subst; try discriminate. assumption. Qed.
@@ -78,9 +91,10 @@ Proof. intros H. inversion H; subst; try reflexivity. destruct H0 as (-> & -> & 
 Definition vshape (v : value) : bool :=
   match v with
   | VNil | VBool _ _ | VInt _ _ | VUint _ _ | VFloat _ _ _ | VStr _ _
-  | VSlice _ _ _ | VArray _ _ | VStruct _ _ | VMap _ _ _ | VIface _ _ | VPtr _ _ _ => true
+  | VSlice _ _ _ | VArray _ _ | VStruct _ _ | VMap _ _ _ | VIface _ _ | VPtr _ _ _ | VUser _ _ _ _ _ => true
   | _ => false
   end.
+Definition isuser (v : value) : bool := match v with VUser _ _ _ _ _ => true | _ => false end.
 Lemma vrel_shape v1 v2 : vrel v1 v2 -> vshape v1 = true /\ vshape v2 = true.
 Proof.
   intros H. inversion H; subst; try (split; reflexivity).
@@ -131,6 +145,7 @@ Record NB (s1 s2 : pst) : Prop := mkNB {
   nb_err : erroring s1 = erroring s2;
   nb_we : wrapErrs s1 = wrapErrs s2;
   nb_wd : wrappedErr s1 = None /\ wrappedErr s2 = None;
+  nb_nw : wrapErrs s1 = false;
   nb_arg : orel vrel (parg s1) (parg s2);
   nb_val : orel (fun a b => vrel (fst a) (fst b) /\ snd a = snd b) (pval s1) (pval s2)
 }.
@@ -161,7 +176,8 @@ Definition JS (H : pst -> pst -> Prop) {A} (RA : A -> A -> Prop) (m1 m2 : M A) :
   forall s1 s2, NB s1 s2 -> SE s1 s2 -> H s1 s2 ->
     match m1 s1, m2 s2 with
     | (ROk a1, s1'), (ROk a2, s2') => RA a1 a2 /\ NB s1' s2' /\ SE s1' s2' /\ seg s1 s1' s2 s2'
-    | _, _ => True
+    | (RFuel, _), _ | (RMiss _, _), _ | _, (RFuel, _) | _, (RMiss _, _) => True   (* out of fuel / not modelled: no claim *)
+    | _, _ => False                                                                (* neither run panics *)
     end.
 Notation J := (JS (fun _ _ => True)).
 
@@ -175,6 +191,16 @@ Lemma JS_weaken (H H' : pst -> pst -> Prop) {A} (RA : A -> A -> Prop) m1 m2 :
   (forall s1 s2, H' s1 s2 -> H s1 s2) -> JS H RA m1 m2 -> JS H' RA m1 m2.
 Proof. intros Hi Hj s1 s2 N S Hs. apply Hj; auto. Qed.
 
+Lemma bind_cong_r {A B} (m : M A) (k1 k2 : A -> M B) st :
+  (forall a s1, k1 a s1 = k2 a s1) -> (x <- m ;; k1 x) st = (x <- m ;; k2 x) st.
+Proof. intros H. unfold bind. destruct (m st) as [[?|?| |?] ?]; auto. Qed.
+Lemma bind_cong_l {A B} (m1 m2 : M A) (k : A -> M B) st :
+  m1 st = m2 st -> (x <- m1 ;; k x) st = (x <- m2 ;; k x) st.
+Proof. intros H. unfold bind. now rewrite H. Qed.
+
+Lemma bindm {B} (g : pst -> pst) (m : M B) st : (modify g ;;; m) st = m (g st).
+Proof. reflexivity. Qed.
+
 Lemma J_ret {A} (RA : A -> A -> Prop) a1 a2 : RA a1 a2 -> J RA (ret a1) (ret a2).
 Proof. intros H s1 s2 N S _. cbn. refine (conj H (conj N (conj S _))). apply seg_refl. Qed.
 
@@ -182,11 +208,11 @@ Lemma JS_bind H {A B} (RA : A -> A -> Prop) (RB : B -> B -> Prop) m1 m2 k1 k2 :
   JS H RA m1 m2 -> (forall a1 a2, RA a1 a2 -> J RB (k1 a1) (k2 a2)) -> JS H RB (bind m1 k1) (bind m2 k2).
 Proof.
   intros Hm Hk s1 s2 N S Hs. unfold bind. specialize (Hm s1 s2 N S Hs).
-  destruct (m1 s1) as [[a1|v1| |w1] s1'] eqn:E1; destruct (m2 s2) as [[a2|v2| |w2] s2'] eqn:E2; try exact Logic.I;
+  destruct (m1 s1) as [[a1|v1| |w1] s1'] eqn:E1; destruct (m2 s2) as [[a2|v2| |w2] s2'] eqn:E2; try (exact Logic.I || contradiction || (exfalso; assumption));
     try (destruct (k1 a1 s1') as [[?|?| |?] ?]; exact Logic.I).
   destruct Hm as (Ra & N' & S' & G).
   specialize (Hk a1 a2 Ra s1' s2' N' S' Logic.I).
-  destruct (k1 a1 s1') as [[b1|?| |?] s1''], (k2 a2 s2') as [[b2|?| |?] s2'']; try exact Logic.I.
+  destruct (k1 a1 s1') as [[b1|?| |?] s1''], (k2 a2 s2') as [[b2|?| |?] s2'']; try (exact Logic.I || contradiction || (exfalso; assumption)).
   destruct Hk as (Rb & N'' & S'' & G'). refine (conj Rb (conj N'' (conj S'' _))). eapply seg_trans; eassumption.
 Qed.
 
@@ -200,12 +226,12 @@ Lemma JS_bind_k P {A B} (RA : A -> A -> Prop) (RB : B -> B -> Prop) m1 m2 k1 k2 
   (forall a1 a2, RA a1 a2 -> JS (HS P) RB (k1 a1) (k2 a2)) -> JS (HS P) RB (bind m1 k1) (bind m2 k2).
 Proof.
   intros Hm Hko Hk s1 s2 N S Hs. unfold bind. specialize (Hm s1 s2 N S Hs). pose proof (Hko s1) as Eo.
-  destruct (m1 s1) as [[a1|v1| |w1] s1'] eqn:E1; destruct (m2 s2) as [[a2|v2| |w2] s2'] eqn:E2; try exact Logic.I;
+  destruct (m1 s1) as [[a1|v1| |w1] s1'] eqn:E1; destruct (m2 s2) as [[a2|v2| |w2] s2'] eqn:E2; try (exact Logic.I || contradiction || (exfalso; assumption));
     try (destruct (k1 a1 s1') as [[?|?| |?] ?]; exact Logic.I).
   destruct Hm as (Ra & N' & S' & G). cbn [snd] in Eo.
   assert (HS P s1' s2') as Hs' by (unfold HS in *; rewrite Eo; exact Hs).
   specialize (Hk a1 a2 Ra s1' s2' N' S' Hs').
-  destruct (k1 a1 s1') as [[b1|?| |?] s1''], (k2 a2 s2') as [[b2|?| |?] s2'']; try exact Logic.I.
+  destruct (k1 a1 s1') as [[b1|?| |?] s1''], (k2 a2 s2') as [[b2|?| |?] s2'']; try (exact Logic.I || contradiction || (exfalso; assumption)).
   destruct Hk as (Rb & N'' & S'' & G'). refine (conj Rb (conj N'' (conj S'' _))). eapply seg_trans; eassumption.
 Qed.
 
@@ -223,7 +249,7 @@ Definition any {A} (_ _ : A) : Prop := True.
 Lemma J_any {A} (RA : A -> A -> Prop) m1 m2 : J RA m1 m2 -> J any m1 m2.
 Proof.
   intros Hj s1 s2 N S Hs. specialize (Hj s1 s2 N S Hs).
-  destruct (m1 s1) as [[a1|?| |?] s1'], (m2 s2) as [[a2|?| |?] s2']; try exact Logic.I.
+  destruct (m1 s1) as [[a1|?| |?] s1'], (m2 s2) as [[a2|?| |?] s2']; try (exact Logic.I || contradiction || (exfalso; assumption)).
   destruct Hj as (_ & N' & S' & G). exact (conj Logic.I (conj N' (conj S' G))).
 Qed.
 
@@ -443,6 +469,7 @@ Section Rec.
   Hypothesis Hkrec : forall c, kovr (rec c).
   Hypothesis Hkeeps : rec_keeps rec.
   Hypothesis Hos : osane (orc env).
+  Hypothesis Hhk : hk = false -> hook env = None.
 
   Lemma J_badverb_call verb : J any (rec (CBadVerb verb) ;;; ret tt) (rec (CBadVerb verb) ;;; ret tt).
   Proof.
@@ -635,14 +662,14 @@ Section Rec.
   Lemma J_clear_wrap : J any (modify (fun s => set_wrapErrs (set_wrappedErr s None) false)) (modify (fun s => set_wrapErrs (set_wrappedErr s None) false)).
   Proof. apply J_modify; [nbmod | intros []; reflexivity | intros []; reflexivity]. Qed.
 
-  Lemma leafish_no_methods a : vshape a = true -> is_error a = false.
+  Lemma leafish_no_methods a : vshape a = true -> isuser a = false -> is_error a = false.
   Proof. destruct a; try discriminate; reflexivity. Qed.
 
   Definition hm_bad (verb : Z) : M bool :=
     modify (fun s => set_wrapErrs (set_wrappedErr s None) false) ;;; rec (CBadVerb verb) ;;; ret true.
 
   Lemma handleMethods_run verb s :
-    match parg s with Some a => vshape a = true | None => True end ->
+    match parg s with Some a => vshape a = true /\ isuser a = false | None => True end ->
     handleMethods rec env verb s =
     if erroring s then (ROk false, s)
     else if verb =? 119 then hm_bad verb s else (ROk false, s).
@@ -650,31 +677,125 @@ Section Rec.
     intros Hl. unfold handleMethods, bind at 1, Printer.get. cbn iota beta.
     destruct (erroring s); [reflexivity|].
     destruct (parg s) as [a|] eqn:Ea.
-    - rewrite (leafish_no_methods a Hl). cbn [negb orb]. rewrite Bool.andb_true_r.
+    - destruct Hl as [Hl Hu]. rewrite (leafish_no_methods a Hl Hu). cbn [negb orb]. rewrite Bool.andb_true_r.
       destruct (verb =? 119); [reflexivity|].
       unfold bind at 1, ret at 1. cbn iota beta.
       destruct a; try discriminate; destruct (negb (ovr_eqb (povr s) OvrUnsafe)); reflexivity.
     - destruct (verb =? 119); reflexivity.
   Qed.
 
-  Lemma leafish_arg s1 s2 : NB s1 s2 ->
-    match parg s1 with Some a => vshape a = true | None => True end /\
-    match parg s2 with Some a => vshape a = true | None => True end.
+  Lemma J_hm_bad verb : J eq (hm_bad verb) (hm_bad verb).
   Proof.
-    intros N. pose proof (nb_arg _ _ N) as Ha.
-    destruct (parg s1), (parg s2); cbn [orel] in Ha; try contradiction; [|auto]. now apply vrel_shape.
+    unfold hm_bad. eapply J_bind; [apply J_clear_wrap | intros _ _ _]. eapply J_bind; [|intros; now apply J_ret].
+    eapply JS_weaken; [|apply (Hrec (CBadVerb verb) (CBadVerb verb)); reflexivity]. intros ? ? _ _. exact Logic.I.
   Qed.
+
+  (* ---------- handleMethods on a value whose method returns a string ---------- *)
+  (* catchPanic is transparent: neither run panics *)
+  Lemma Jcatch_panic (H : pst -> pst -> Prop) a1 a2 verb method (b1 b2 : M unit) :
+    JS H any b1 b2 -> JS H any (catch_panic rec a1 verb method b1) (catch_panic rec a2 verb method b2).
+  Proof.
+    intros Hb s1 s2 N S Hs. specialize (Hb s1 s2 N S Hs). unfold catch_panic.
+    destruct (b1 s1) as [[u1|p1| |w1] x] eqn:E1, (b2 s2) as [[u2|p2| |w2] y] eqn:E2; try (exact Hb || contradiction || exact Logic.I).
+    - (* left panics, right out of fuel: no claim *)
+      destruct (is_nil_ptr a1); [destruct (wstr "<nil>" x) as [[?|?| |?] ?]; exact Logic.I|].
+      destruct (panicking x); [exact Logic.I|].
+      match goal with |- match ?m x with _ => _ end => destruct (m x) as [[?|?| |?] ?]; exact Logic.I end.
+    - destruct (is_nil_ptr a1); [destruct (wstr "<nil>" x) as [[?|?| |?] ?]; exact Logic.I|].
+      destruct (panicking x); [exact Logic.I|].
+      match goal with |- match ?m x with _ => _ end => destruct (m x) as [[?|?| |?] ?]; exact Logic.I end.
+  Qed.
+
+  Lemma catch_panic_ext a verb method (b1 b2 : M unit) : (forall s, b1 s = b2 s) ->
+    forall s, catch_panic rec a verb method b1 s = catch_panic rec a verb method b2 s.
+  Proof. intros H s. unfold catch_panic. now rewrite H. Qed.
+
+  Definition user_std (a : value) (i : ifaces) (x : bytes) (verb : Z) : M bool :=
+    f <- getf ;;
+    if sharpV (fl f) then
+      if iGoStringer i then catch_panic rec a verb "GoString" (bracket start_unsafe (f <- getf ;; wr (fmt_s f x))) ;;; ret true
+      else ret false
+    else if isv verb "vsxXq" then
+      if iError i then catch_panic rec a verb "Error" (fmtString rec env x verb) ;;; ret true
+      else if iStringer i then catch_panic rec a verb "String" (fmtString rec env x verb) ;;; ret true
+      else ret false
+    else ret false.
+
+  Lemma handleMethods_user_run verb s t i r x rest :
+    parg s = Some (VUser t i false r (ARet x :: rest)) -> wrapErrs s = false -> povr s <> OvrUnsafe ->
+    iFormatter i = false -> iSafeFormatter i = false -> iSafeMessager i = false -> (iError i = true -> hook env = None) ->
+    handleMethods rec env verb s =
+    if erroring s then (ROk false, s)
+    else if verb =? 119 then hm_bad verb s else user_std (VUser t i false r (ARet x :: rest)) i x verb s.
+  Proof.
+    intros Ea Hw Ho F1 F2 F3 Hh. unfold handleMethods, bind at 1, Printer.get. cbn iota beta.
+    destruct (erroring s); [reflexivity|]. rewrite Ea, Hw. cbn [negb orb]. rewrite Bool.orb_true_r, Bool.andb_true_r.
+    destruct (verb =? 119); [reflexivity|].
+    unfold bind at 1, ret at 1. cbn iota beta.
+    assert (negb (ovr_eqb (povr s) OvrUnsafe) = true) as -> by (destruct (povr s); try reflexivity; congruence).
+    rewrite F1, F2, F3.
+    assert (forall std : M bool, (if iError i then match hook env with
+              | Some h => catch_panic rec (VUser t i false r (ARet x :: rest)) verb "SafeFormatter" (rec (CActs (VUser t i false r (ARet x :: rest)) verb h) ;;; ret tt) ;;; ret true
+              | None => std end else std) = std) as Hstd.
+    { intros std. destruct (iError i); [rewrite (Hh eq_refl)|]; reflexivity. }
+    rewrite Hstd. unfold user_std. apply bind_cong_r. intros f s0.
+    destruct (sharpV (fl f)).
+    - destruct (iGoStringer i); [|reflexivity]. apply bind_cong_l.
+      apply catch_panic_ext. intros s1. apply bracket_ext. intros s2. reflexivity.
+    - destruct (isv verb "vsxXq"); [|reflexivity].
+      destruct (iError i); [apply bind_cong_l; apply catch_panic_ext; intros s1; reflexivity|].
+      destruct (iStringer i); [|reflexivity]. apply bind_cong_l; apply catch_panic_ext; intros s1; reflexivity.
+  Qed.
+
+  Lemma kovr_ret {A} (a : A) : kovr (ret a). Proof. intros s. reflexivity. Qed.
+  Lemma kovr_getf : kovr getf. Proof. intros s. reflexivity. Qed.
+
+  Lemma Juser_std a1 a2 i x1 x2 verb : (x1 = x2 \/ srel x1 x2) ->
+    JS (HS (x1 = x2)) eq (user_std a1 i x1 verb) (user_std a2 i x2 verb).
+  Proof.
+    intros Hx. unfold user_std.
+    eapply JS_bind_k; [apply J_JS, J_getf | apply kovr_getf | intros f ? <-].
+    destruct (sharpV (fl f)).
+    - destruct (iGoStringer i); [|apply J_JS; now apply J_ret].
+      eapply JS_bind; [|intros; now apply J_ret]. apply Jcatch_panic.
+      eapply JS_weaken; [|apply (ubody_wr_rel (fun f0 => fmt_s f0 x1) (fun f0 => fmt_s f0 x2))];
+        [intros s1 s2 H Ho f0; now rewrite (H Ho) | intros f0; apply fmt_s_rel; destruct Hx as [-> | Hx]; [apply srel_refl | exact Hx]].
+    - destruct (isv verb "vsxXq"); [|apply J_JS; now apply J_ret].
+      destruct (iError i); [eapply JS_bind; [|intros; now apply J_ret]; apply Jcatch_panic; now apply JfmtString|].
+      destruct (iStringer i); [|apply J_JS; now apply J_ret].
+      eapply JS_bind; [|intros; now apply J_ret]. apply Jcatch_panic. now apply JfmtString.
+  Qed.
+
+  Lemma vrel_isuser v1 v2 : vrel v1 v2 -> isuser v1 = isuser v2.
+  Proof. intros H. inversion H; subst; try reflexivity. destruct H0 as (L1 & L2 & _). destruct v1, v2; try discriminate; reflexivity. Qed.
 
   Lemma JhandleMethods verb : J eq (handleMethods rec env verb) (handleMethods rec env verb).
   Proof.
-    intros s1 s2 N S _. destruct (leafish_arg _ _ N) as [L1 L2].
-    rewrite (handleMethods_run verb s1 L1), (handleMethods_run verb s2 L2), <- (nb_err _ _ N).
-    destruct (erroring s1); [refine (conj eq_refl (conj N (conj S _))); apply seg_refl|].
-    destruct (verb =? 119); [|refine (conj eq_refl (conj N (conj S _))); apply seg_refl].
-    assert (J eq (hm_bad verb) (hm_bad verb)) as Hbad.
-    { unfold hm_bad. eapply J_bind; [apply J_clear_wrap | intros _ _ _]. eapply J_bind; [|intros; now apply J_ret].
-      eapply JS_weaken; [|apply (Hrec (CBadVerb verb) (CBadVerb verb)); reflexivity]. intros ? ? _ _. exact Logic.I. }
-    apply Hbad; auto.
+    intros s1 s2 N S _. pose proof (nb_arg _ _ N) as Ha.
+    destruct (parg s1) as [a1|] eqn:E1, (parg s2) as [a2|] eqn:E2; cbn [orel] in Ha; try contradiction.
+    - destruct (isuser a1) eqn:U1.
+      + (* a value with a string method *)
+        inversion Ha; subst; try discriminate.
+        { destruct H as (L1 & _). destruct a1; discriminate. }
+        match goal with Hx : _ = _ \/ srel _ _ |- _ => rename Hx into Hxs end.
+        rewrite (handleMethods_user_run verb s1 _ _ _ _ _ E1 (nb_nw _ _ N) (nb_nou _ _ N)) by (try assumption; intros Hi; apply Hhk; auto).
+        assert (povr s2 <> OvrUnsafe) as Ho2 by (rewrite <- (nb_ovr _ _ N); apply N).
+        assert (wrapErrs s2 = false) as Hw2 by (rewrite <- (nb_we _ _ N); apply N).
+        rewrite (handleMethods_user_run verb s2 _ _ _ _ _ E2 Hw2 Ho2) by (try assumption; intros Hi; apply Hhk; auto).
+        rewrite <- (nb_err _ _ N).
+        destruct (erroring s1); [refine (conj eq_refl (conj N (conj S _))); apply seg_refl|].
+        destruct (verb =? 119); [apply J_hm_bad; auto|].
+        apply Juser_std; auto. intros Hos1. destruct (S Hos1) as (E & _). rewrite E1, E2 in E. now injection E.
+      + assert (isuser a2 = false) as U2 by (rewrite <- (vrel_isuser _ _ Ha); exact U1).
+        destruct (vrel_shape _ _ Ha) as [Sh1 Sh2].
+        rewrite (handleMethods_run verb s1), (handleMethods_run verb s2), <- (nb_err _ _ N) by (rewrite ?E1, ?E2; auto).
+        destruct (erroring s1); [refine (conj eq_refl (conj N (conj S _))); apply seg_refl|].
+        destruct (verb =? 119); [|refine (conj eq_refl (conj N (conj S _))); apply seg_refl].
+        apply J_hm_bad; auto.
+    - rewrite (handleMethods_run verb s1), (handleMethods_run verb s2), <- (nb_err _ _ N) by (rewrite ?E1, ?E2; auto).
+      destruct (erroring s1); [refine (conj eq_refl (conj N (conj S _))); apply seg_refl|].
+      destruct (verb =? 119); [|refine (conj eq_refl (conj N (conj S _))); apply seg_refl].
+      apply J_hm_bad; auto.
   Qed.
 
   (* ---------- the kind switch, on related leaves ---------- *)
@@ -739,8 +860,6 @@ Section Rec.
 
   (* ---------- containers: the same punctuation, related elements ---------- *)
   (* HS False: the override is not Safe (containers are never declared safe) *)
-  Lemma kovr_ret {A} (a : A) : kovr (ret a). Proof. intros s. reflexivity. Qed.
-  Lemma kovr_getf : kovr getf. Proof. intros s. reflexivity. Qed.
 
   Lemma Jelem e1 e2 verb depth ci : vrel e1 e2 ->
     JS (HS False) eq (rec (CPrintValue e1 verb depth ci)) (rec (CPrintValue e2 verb depth ci)).
@@ -819,10 +938,10 @@ Section Rec.
 
   Ltac seqk := eapply JS_bind_k; [ | | intros _ _ _].
 
-  Lemma Jprint_kind fuel v1 v2 verb depth ci : vrel v1 v2 ->
+  Lemma Jprint_kind_nu fuel v1 v2 verb depth ci : vrel v1 v2 -> isuser v1 = false ->
     JS (HS (v1 = v2 /\ lfs v1 = true)) any (print_kind fuel rec env v1 verb depth ci) (print_kind fuel rec env v2 verb depth ci).
   Proof.
-    intros Hv.
+    intros Hv Hnu.
     assert (lfs v1 = false -> JS (HS False) any (print_kind fuel rec env v1 verb depth ci) (print_kind fuel rec env v2 verb depth ci) ->
             JS (HS (v1 = v2 /\ lfs v1 = true)) any (print_kind fuel rec env v1 verb depth ci) (print_kind fuel rec env v2 verb depth ci)) as Hcont.
     { intros L Hj. eapply JS_weaken; [|exact Hj]. intros ? ? Hx Ho. destruct (Hx Ho) as [_ L']. congruence. }
@@ -867,6 +986,18 @@ Section Rec.
         (destruct (negb (u =? 0) && elem_kind_composite a); [|apply J_JS, JfmtPointer_ptr]);
         (eapply JS_bind_k; [apply J_JS, J_wbyte | apply kovr_wbyte | intros _ _ _];
          eapply JS_bind; [apply Jelem; assumption | intros; now apply J_ret]).
+    - discriminate.
+  Qed.
+
+  (* a user value no method took: reflection prints its representation *)
+  Lemma Jprint_kind fuel : forall v1 v2 verb depth ci, vrel v1 v2 ->
+    JS (HS (v1 = v2 /\ lfs v1 = true)) any (print_kind fuel rec env v1 verb depth ci) (print_kind fuel rec env v2 verb depth ci).
+  Proof.
+    induction fuel as [|k IHf]; intros v1 v2 verb depth ci Hv; (destruct (isuser v1) eqn:U; [|now apply Jprint_kind_nu]).
+    - inversion Hv; subst; try discriminate; [destruct H as (L1 & _); destruct v1; discriminate|].
+      cbn [print_kind]. intros ? ? _ _ _. exact Logic.I.
+    - inversion Hv; subst; try discriminate; [destruct H as (L1 & _); destruct v1; discriminate|].
+      cbn [print_kind]. eapply JS_weaken; [|apply IHf; eassumption]. intros ? ? Hx Ho. destruct (Hx Ho) as [_ Lx]. discriminate.
   Qed.
 
   (* ---------- printValue at depth 0, printArg ---------- *)
@@ -948,6 +1079,13 @@ Section Rec.
   Qed.
 
 
+  Lemma JfmtPointer_user t i nr r1 r2 sc1 sc2 : vrel r1 r2 ->
+    J any (fmtPointer rec env (VUser t i nr r1 sc1) 112) (fmtPointer rec env (VUser t i nr r2 sc2) 112).
+  Proof.
+    intros H. inversion H; subst; cbn [fmtPointer]; try apply J_badverb_call; try (intros ? ? _ _ _; exact Logic.I).
+    destruct H0 as (L1 & L2 & _). destruct r1, r2; try discriminate; apply J_badverb_call.
+  Qed.
+
   Lemma Jpa_rest v1 v2 verb : vrel v1 v2 -> JS (HS (v1 = v2 /\ lfs v1 = true)) any (pa_rest v1 verb) (pa_rest v2 verb).
   Proof.
     intros Hv. destruct (Bool.bool_dec (leafish v1) true) as [L1|L1]; [apply Jpa_rest_leaf; now apply vrel_leaf_inv|].
@@ -964,7 +1102,7 @@ Section Rec.
     destruct (verb =? 112).
     { apply J_JS. inversion Hv; subst; try discriminate;
         try (match goal with Hx : lrel _ _ |- _ => destruct Hx as (Lx & _); congruence end);
-        try (apply JfmtPointer_ptr); cbn [fmtPointer];
+        try (apply JfmtPointer_ptr); try (apply JfmtPointer_user; assumption); cbn [fmtPointer];
         try (apply J_badverb_call); intros ? ? _ _ _; exact Logic.I. }
     eapply JS_bind_k; [| apply Hkrec |].
     - eapply JS_weaken; [|apply (Hrec (CHandleMethods verb) (CHandleMethods verb)); reflexivity]. intros ? ? _ _. exact Logic.I.
@@ -979,7 +1117,8 @@ Section Rec.
     forall s1 s2, NB s1 s2 -> H s1 s2 ->
       match m1 s1, m2 s2 with
       | (ROk a1, s1'), (ROk a2, s2') => RA a1 a2 /\ NB s1' s2' /\ SE s1' s2' /\ seg s1 s1' s2 s2'
-      | _, _ => True
+      | (RFuel, _), _ | (RMiss _, _), _ | _, (RFuel, _) | _, (RMiss _, _) => True
+      | _, _ => False
       end.
 
   Lemma JS0_JS (H : pst -> pst -> Prop) {A} (RA : A -> A -> Prop) m1 m2 : JS0 H RA m1 m2 -> JS H RA m1 m2.
@@ -997,7 +1136,7 @@ Section Rec.
   Lemma JprintArg_inner v1 v2 verb : vrel v1 v2 ->
     JS0 (HS (v1 = v2 /\ lfs v1 = true)) any (printArg_inner rec env v1 verb) (printArg_inner rec env v2 verb).
   Proof.
-    intros Hl s1 s2 N Hs. rewrite !printArg_inner_unfold. unfold bind at 1 2, modify. cbn iota beta.
+    intros Hl s1 s2 N Hs. rewrite !printArg_inner_unfold. rewrite !bindm.
     set (a1 := set_val (set_arg s1 (match v1 with VNil => None | _ => Some v1 end)) None).
     set (a2 := set_val (set_arg s2 (match v2 with VNil => None | _ => Some v2 end)) None).
     assert (NB a1 a2) as N'.
@@ -1008,10 +1147,10 @@ Section Rec.
         destruct v1, v2; try congruence; exact Hl. }
     assert (SE a1 a2) as S'.
     { unfold SE, a1, a2. destruct s1, s2; cbn in *. intros Ho. destruct (Hs Ho) as [<- Lf].
-      split; [reflexivity|]. split; [destruct v1; try exact Logic.I; exact Lf|]. intros _. split; [reflexivity | exact Logic.I]. }
+      split; [reflexivity|]. split; [destruct v1; try (exact Logic.I || contradiction || (exfalso; assumption)); exact Lf|]. intros _. split; [reflexivity | exact Logic.I]. }
     assert (HS (v1 = v2 /\ lfs v1 = true) a1 a2) as Hs' by (unfold HS, a1 in *; destruct s1; exact Hs).
     pose proof (Jpa_rest v1 v2 verb Hl a1 a2 N' S' Hs') as R.
-    destruct (pa_rest v1 verb a1) as [[u1|?| |?] x], (pa_rest v2 verb a2) as [[u2|?| |?] y]; try exact Logic.I.
+    destruct (pa_rest v1 verb a1) as [[u1|?| |?] x], (pa_rest v2 verb a2) as [[u2|?| |?] y]; try (exact Logic.I || contradiction || (exfalso; assumption)).
     destruct R as (_ & Nx & Sx & Gx). refine (conj Logic.I (conj Nx (conj Sx _))).
     apply (seg_same_pl s1 a1 s2 a2); [unfold a1; destruct s1; reflexivity | unfold a2; destruct s2; reflexivity | exact Gx].
   Qed.
@@ -1057,7 +1196,7 @@ Section Rec.
       - split; [exact N|]. split; [|apply seg_refl].
         pose proof (nb_nou _ _ N). destruct (povr s1); try discriminate; congruence. }
     specialize (Hb a1 a2 Na Logic.I). pose proof (Hk a1) as Ek.
-    destruct (b1 a1) as [[u1|?| |?] x], (b2 a2) as [[u2|?| |?] y]; try exact Logic.I.
+    destruct (b1 a1) as [[u1|?| |?] x], (b2 a2) as [[u2|?| |?] y]; try (exact Logic.I || contradiction || (exfalso; assumption)).
     destruct Hb as (_ & Nx & Sx & Gx). cbn [snd] in Ek.
     assert (forall s l o, pl (set_ovr (set_pl s l) o) = l) as Hp by (intros [] ? ?; reflexivity).
     refine (conj Logic.I (conj _ (conj _ _))).
@@ -1099,7 +1238,7 @@ Section Rec.
         + pose proof (nb_nou _ _ N). destruct (povr s1); try discriminate; congruence.
         + intros _. exact Hu. }
     specialize (Hb a1 a2 Na Sa Logic.I). pose proof (Hk a1) as Ek.
-    destruct (b1 a1) as [[u1|?| |?] x], (b2 a2) as [[u2|?| |?] y]; try exact Logic.I.
+    destruct (b1 a1) as [[u1|?| |?] x], (b2 a2) as [[u2|?| |?] y]; try (exact Logic.I || contradiction || (exfalso; assumption)).
     destruct Hb as (_ & Nx & Sx & Gx). cbn [snd] in Ek.
     assert (forall s l o, pl (set_ovr (set_pl s l) o) = l) as Hp by (intros [] ? ?; reflexivity).
     refine (conj Logic.I (conj _ (conj _ _))).
@@ -1120,10 +1259,10 @@ Section Rec.
     (forall s, pl (f s) = pl s) -> (forall s, pl (g s) = pl s) ->
     JS H' any m1 m2 -> JS0 H any (modify f ;;; m1) (modify g ;;; m2).
   Proof.
-    intros Hr Hf Hg Hm s1 s2 N Hs. unfold bind at 1 2, modify. cbn iota beta.
+    intros Hr Hf Hg Hm s1 s2 N Hs. rewrite !bindm.
     destruct (Hr s1 s2 N Hs) as (N' & S' & H1).
     pose proof (Hm (f s1) (g s2) N' S' H1) as R.
-    destruct (m1 (f s1)) as [[u1|?| |?] x], (m2 (g s2)) as [[u2|?| |?] y]; try exact Logic.I.
+    destruct (m1 (f s1)) as [[u1|?| |?] x], (m2 (g s2)) as [[u2|?| |?] y]; try (exact Logic.I || contradiction || (exfalso; assumption)).
     destruct R as (_ & Nx & Sx & Gx). refine (conj Logic.I (conj Nx (conj Sx _))).
     apply (seg_same_pl s1 (f s1) s2 (g s2)); [apply Hf | apply Hg | exact Gx].
   Qed.
@@ -1229,14 +1368,14 @@ Section Rec.
     JS0 (HS (v1 = v2 /\ lfs v1 = true)) any (pv_body v1 verb depth ci) (pv_body v2 verb depth ci).
   Proof.
     intros Hv. unfold pv_body. destruct ci; [|now apply Jkind_part].
-    intros s1 s2 N Hs. unfold bind at 1 2, modify. cbn iota beta.
+    intros s1 s2 N Hs. rewrite !bindm.
     set (a1 := set_arg s1 (dyn_of v1)). set (a2 := set_arg s2 (dyn_of v2)).
     assert (NB a1 a2) as N'.
     { unfold a1, a2. destruct (dyn_rel _ _ Hv) as [Hd _]. destruct N. destruct s1, s2; constructor; cbn in *; auto. }
     assert ((povr a1 = OvrSafe -> v1 = v2 /\ lfs v1 = true) /\ parg a1 = dyn_of v1 /\ parg a2 = dyn_of v2) as Hp.
     { unfold a1, a2, HS in *. destruct s1, s2; cbn in *. auto. }
     pose proof (Jafter_arg v1 v2 verb depth true Hv a1 a2 N' Hp) as R.
-    destruct (after_arg v1 verb depth true a1) as [[u1|?| |?] x], (after_arg v2 verb depth true a2) as [[u2|?| |?] y]; try exact Logic.I.
+    destruct (after_arg v1 verb depth true a1) as [[u1|?| |?] x], (after_arg v2 verb depth true a2) as [[u2|?| |?] y]; try (exact Logic.I || contradiction || (exfalso; assumption)).
     destruct R as (_ & Nx & Sx & Gx). refine (conj Logic.I (conj Nx (conj Sx _))).
     apply (seg_same_pl s1 a1 s2 a2); [unfold a1; destruct s1; reflexivity | unfold a2; destruct s2; reflexivity | exact Gx].
   Qed.
@@ -1311,11 +1450,11 @@ Section Rec.
 End Rec.
 
 (* every fuel: the evaluator on related leaf calls *)
-Theorem ev_leaf_rel fuel env : osane (orc env) -> rec_ok (ev fuel env).
+Theorem ev_leaf_rel fuel env : osane (orc env) -> (hk = false -> hook env = None) -> rec_ok (ev fuel env).
 Proof.
-  intros Ho. induction fuel as [|k IH]; intros c1 c2 Hc.
+  intros Ho Hh. induction fuel as [|k IH]; intros c1 c2 Hc.
   - intros s1 s2 _ _ _. exact Logic.I.
-  - pose proof (Jstep (ev k env) env IH (fun c => kovr_ev k env c) (keeps_ev k env) Ho c1 c2 Hc) as H.
+  - pose proof (Jstep (ev k env) env IH (fun c => kovr_ev k env c) (keeps_ev k env) Ho Hh c1 c2 Hc) as H.
     destruct c1, c2; cbn [crel] in Hc; try contradiction; exact H.
 Qed.
 
@@ -1328,12 +1467,12 @@ Lemma JS_bind_o (Hp : ovr -> Prop) {A B} (RA : A -> A -> Prop) (RB : B -> B -> P
   JS (fun s1 _ => Hp (povr s1)) RB (bind m1 k1) (bind m2 k2).
 Proof.
   intros Hm Hko Hk s1 s2 N S Hs. unfold bind. specialize (Hm s1 s2 N S Hs). pose proof (Hko s1) as Eo.
-  destruct (m1 s1) as [[a1|v1| |w1] s1'] eqn:E1; destruct (m2 s2) as [[a2|v2| |w2] s2'] eqn:E2; try exact Logic.I;
+  destruct (m1 s1) as [[a1|v1| |w1] s1'] eqn:E1; destruct (m2 s2) as [[a2|v2| |w2] s2'] eqn:E2; try (exact Logic.I || contradiction || (exfalso; assumption));
     try (destruct (k1 a1 s1') as [[?|?| |?] ?]; exact Logic.I).
   destruct Hm as (Ra & N' & S' & G). cbn [snd] in Eo.
   assert (Hp (povr s1')) as Hs' by (rewrite Eo; exact Hs).
   specialize (Hk a1 a2 Ra s1' s2' N' S' Hs').
-  destruct (k1 a1 s1') as [[b1|?| |?] s1''], (k2 a2 s2') as [[b2|?| |?] s2'']; try exact Logic.I.
+  destruct (k1 a1 s1') as [[b1|?| |?] s1''], (k2 a2 s2') as [[b2|?| |?] s2'']; try (exact Logic.I || contradiction || (exfalso; assumption)).
   destruct Hk as (Rb & N'' & S'' & G'). refine (conj Rb (conj N'' (conj S'' _))). eapply seg_trans; eassumption.
 Qed.
 
@@ -1417,7 +1556,7 @@ Section Loop.
   Proof.
     intros Ha s1 s2 N S Hn.
     pose proof (Hrec (CPrintArg (nth n a1 VNil) verb) (CPrintArg (nth n a2 VNil) verb) (conj eq_refl (lrel_nth a1 a2 n Ha)) s1 s2 N S (NoO_HS _ _ _ Hn)) as R.
-    destruct (rec (CPrintArg (nth n a1 VNil) verb) s1) as [[u1|?| |?] x], (rec (CPrintArg (nth n a2 VNil) verb) s2) as [[u2|?| |?] y]; try exact Logic.I.
+    destruct (rec (CPrintArg (nth n a1 VNil) verb) s1) as [[u1|?| |?] x], (rec (CPrintArg (nth n a2 VNil) verb) s2) as [[u2|?| |?] y]; try (exact Logic.I || contradiction || (exfalso; assumption)).
     destruct R as (_ & R). exact (conj Logic.I R).
   Qed.
 
@@ -1480,7 +1619,8 @@ Section Loop.
     destruct (if fb f i9 <? 128 then (fb f i9, 1%nat) else decode_rune (skipn i9 f)) as [verb size].
     apply JS_get_bind. intros x y s1 s2 N S (-> & -> & Hn). rewrite <- (nb_good _ _ N).
     assert (forall m1 m2 : M Z, JS NoO eq m1 m2 -> match m1 x, m2 y with
-              | (ROk a1', s1'), (ROk a2', s2') => a1' = a2' /\ NB s1' s2' /\ SE s1' s2' /\ seg x s1' y s2' | _, _ => True end) as Hap
+              | (ROk a1', s1'), (ROk a2', s2') => a1' = a2' /\ NB s1' s2' /\ SE s1' s2' /\ seg x s1' y s2'
+              | (RFuel, _), _ | (RMiss _, _), _ | _, (RFuel, _) | _, (RMiss _, _) => True | _, _ => False end) as Hap
       by (intros m1 m2 Hm; apply Hm; auto).
     destruct (verb =? 37).
     { apply Hap. jb; [jn (J_wbyte 37) | apply kovr_wbyte | intros _ _ _]. apply IH. }
@@ -1537,7 +1677,7 @@ Section Top.
         eapply JS_bind; [|intros; now apply J_ret].
         intros s1 s2 N S Hn.
         pose proof (Hrec (CPrintArg x 118) (CPrintArg y 118) (conj eq_refl Hxy) s1 s2 N S (NoO_HS _ _ _ Hn)) as R.
-        destruct (rec (CPrintArg x 118) s1) as [[u1|?| |?] p], (rec (CPrintArg y 118) s2) as [[u2|?| |?] q]; try exact Logic.I.
+        destruct (rec (CPrintArg x 118) s1) as [[u1|?| |?] p], (rec (CPrintArg y 118) s2) as [[u2|?| |?] q]; try (exact Logic.I || contradiction || (exfalso; assumption)).
         destruct R as (_ & R). exact (conj Logic.I R).
     - destruct x; try (apply kovr_wstr);
         (apply kovr_bind; [apply kovr_w1 | intros _]; apply kovr_bind; [apply kovr_wbyte | intros _]; apply kovr_bind; [apply Hkrec | intros _ sx; reflexivity]).
@@ -1574,7 +1714,7 @@ Section Top.
     jba; [| apply Hkrec | intros _ _ _; now apply IH].
     intros s1 s2 N S Hn.
     pose proof (Hrec (CPrintArg x 118) (CPrintArg y 118) (conj eq_refl Hxy) s1 s2 N S (NoO_HS _ _ _ Hn)) as R.
-    destruct (rec (CPrintArg x 118) s1) as [[u1|?| |?] p], (rec (CPrintArg y 118) s2) as [[u2|?| |?] q]; try exact Logic.I.
+    destruct (rec (CPrintArg x 118) s1) as [[u1|?| |?] p], (rec (CPrintArg y 118) s2) as [[u2|?| |?] q]; try (exact Logic.I || contradiction || (exfalso; assumption)).
     destruct R as (_ & R). exact (conj Logic.I R).
   Qed.
 
@@ -1592,17 +1732,17 @@ Proof.
 Qed.
 
 Theorem sprintf_tree_dsim fuel env f a1 a2 o1 o2 :
-  osane (orc env) -> no_star f = true -> Forall2 vrel a1 a2 ->
+  osane (orc env) -> (hk = false -> hook env = None) -> no_star f = true -> Forall2 vrel a1 a2 ->
   sprintf fuel env f a1 = ROk o1 -> sprintf fuel env f a2 = ROk o2 ->
   exists ops1 ops2 m', o_log o1 = ops1 ++ [OTake] /\ o_log o2 = ops2 ++ [OTake] /\
                        o_bytes o1 = output ops1 /\ o_bytes o2 = output ops2 /\ dsim MUnsafe ops1 ops2 m'.
 Proof.
-  intros Ho Hns Ha H1 H2. unfold sprintf in H1, H2.
+  intros Ho Hh Hns Ha H1 H2. unfold sprintf in H1, H2.
   destruct fuel as [|k]; [discriminate|]. cbn [ev] in H1, H2.
   destruct NB_newPrinter as (N0 & S0 & Hn0).
   assert (JS NoO any (doPrintf (ev k env) f a1 ;;; ret RU) (doPrintf (ev k env) f a2 ;;; ret RU)) as Hj.
   { eapply JS_bind; [|intros; now apply J_ret].
-    exact (J_doPrintf (ev k env) (ev_leaf_rel k env Ho) (fun c => kovr_ev k env c) (keeps_ev k env) f a1 a2 Hns Ha). }
+    exact (J_doPrintf (ev k env) (ev_leaf_rel k env Ho Hh) (fun c => kovr_ev k env c) (keeps_ev k env) f a1 a2 Hns Ha). }
   specialize (Hj newPrinter newPrinter N0 S0 Hn0).
   destruct ((doPrintf (ev k env) f a1 ;;; ret RU) newPrinter) as [[r1|?| |?] s1] eqn:E1; try discriminate.
   destruct ((doPrintf (ev k env) f a2 ;;; ret RU) newPrinter) as [[r2|?| |?] s2] eqn:E2; try discriminate.
@@ -1616,34 +1756,34 @@ Proof.
 Qed.
 
 (* Non-interference of Sprintf for leaf operands: Redact() of the two results is byte-identical *)
-Theorem sprintf_tree_noninterference fuel env f a1 a2 o1 o2 :
-  osane (orc env) -> no_star f = true -> Forall2 vrel a1 a2 ->
+Theorem sprintf_tree_noninterference_hk fuel env f a1 a2 o1 o2 :
+  osane (orc env) -> (hk = false -> hook env = None) -> no_star f = true -> Forall2 vrel a1 a2 ->
   sprintf fuel env f a1 = ROk o1 -> sprintf fuel env f a2 = ROk o2 ->
   forall ops1 ops2, o_log o1 = ops1 ++ [OTake] -> o_log o2 = ops2 ++ [OTake] ->
   rawok ops1 = true -> ptail_ok_from init ops1 = true -> ptail_ok_from init ops2 = true ->
   Markers.redact_b (o_bytes o1) = Markers.redact_b (o_bytes o2).
 Proof.
-  intros Ho Hns Ha H1 H2 ops1 ops2 E1 E2 Hr T1 T2.
-  destruct (sprintf_tree_dsim fuel env f a1 a2 o1 o2 Ho Hns Ha H1 H2) as (p1 & p2 & m' & F1 & F2 & B1 & B2 & D).
+  intros Ho Hh Hns Ha H1 H2 ops1 ops2 E1 E2 Hr T1 T2.
+  destruct (sprintf_tree_dsim fuel env f a1 a2 o1 o2 Ho Hh Hns Ha H1 H2) as (p1 & p2 & m' & F1 & F2 & B1 & B2 & D).
   rewrite E1 in F1. rewrite E2 in F2. apply app_inj_tail in F1, F2. destruct F1 as [<- _], F2 as [<- _].
   rewrite B1, B2. eapply redact_noninterference_seg; eassumption.
 Qed.
 
-Print Assumptions sprintf_tree_noninterference.
+Print Assumptions sprintf_tree_noninterference_hk.
 
 (* the same for Sprint *)
 Theorem sprint_tree_dsim fuel env a1 a2 o1 o2 :
-  osane (orc env) -> Forall2 vrel a1 a2 ->
+  osane (orc env) -> (hk = false -> hook env = None) -> Forall2 vrel a1 a2 ->
   sprint fuel env a1 = ROk o1 -> sprint fuel env a2 = ROk o2 ->
   exists ops1 ops2 m', o_log o1 = ops1 ++ [OTake] /\ o_log o2 = ops2 ++ [OTake] /\
                        o_bytes o1 = output ops1 /\ o_bytes o2 = output ops2 /\ dsim MUnsafe ops1 ops2 m'.
 Proof.
-  intros Ho Ha H1 H2. unfold sprint in H1, H2.
+  intros Ho Hh Ha H1 H2. unfold sprint in H1, H2.
   destruct fuel as [|k]; [discriminate|]. cbn [ev] in H1, H2.
   destruct NB_newPrinter as (N0 & S0 & Hn0).
   assert (JS NoO any (doPrint (ev k env) a1 ;;; ret RU) (doPrint (ev k env) a2 ;;; ret RU)) as Hj.
   { eapply JS_bind; [|intros; now apply J_ret].
-    exact (J_doPrint (ev k env) (ev_leaf_rel k env Ho) (fun c => kovr_ev k env c) a1 a2 Ha). }
+    exact (J_doPrint (ev k env) (ev_leaf_rel k env Ho Hh) (fun c => kovr_ev k env c) a1 a2 Ha). }
   specialize (Hj newPrinter newPrinter N0 S0 Hn0).
   destruct ((doPrint (ev k env) a1 ;;; ret RU) newPrinter) as [[r1|?| |?] s1] eqn:X1; try discriminate.
   destruct ((doPrint (ev k env) a2 ;;; ret RU) newPrinter) as [[r2|?| |?] s2] eqn:X2; try discriminate.
@@ -1656,23 +1796,63 @@ Proof.
   rewrite L1, L2. cbn [newPrinter fresh_pp pl l_init rlog]. rewrite !app_nil_r. exact D.
 Qed.
 
-Theorem sprint_tree_noninterference fuel env a1 a2 o1 o2 :
-  osane (orc env) -> Forall2 vrel a1 a2 ->
+Theorem sprint_tree_noninterference_hk fuel env a1 a2 o1 o2 :
+  osane (orc env) -> (hk = false -> hook env = None) -> Forall2 vrel a1 a2 ->
   sprint fuel env a1 = ROk o1 -> sprint fuel env a2 = ROk o2 ->
   forall ops1 ops2, o_log o1 = ops1 ++ [OTake] -> o_log o2 = ops2 ++ [OTake] ->
   rawok ops1 = true -> ptail_ok_from init ops1 = true -> ptail_ok_from init ops2 = true ->
   Markers.redact_b (o_bytes o1) = Markers.redact_b (o_bytes o2).
 Proof.
-  intros Ho Ha H1 H2 ops1 ops2 E1 E2 Hr T1 T2.
-  destruct (sprint_tree_dsim fuel env a1 a2 o1 o2 Ho Ha H1 H2) as (p1 & p2 & m' & F1 & F2 & B1 & B2 & D).
+  intros Ho Hh Ha H1 H2 ops1 ops2 E1 E2 Hr T1 T2.
+  destruct (sprint_tree_dsim fuel env a1 a2 o1 o2 Ho Hh Ha H1 H2) as (p1 & p2 & m' & F1 & F2 & B1 & B2 & D).
   rewrite E1 in F1. rewrite E2 in F2. apply app_inj_tail in F1, F2. destruct F1 as [<- _], F2 as [<- _].
   rewrite B1, B2. eapply redact_noninterference_seg; eassumption.
 Qed.
-Print Assumptions sprint_tree_noninterference.
+Print Assumptions sprint_tree_noninterference_hk.
 
 (* the leaf-only statements as corollaries *)
 Lemma lrel_vrel_list a1 a2 : Forall2 lrel a1 a2 -> Forall2 vrel a1 a2.
 Proof. induction 1; constructor; [now apply vr_leaf | assumption]. Qed.
+
+Theorem sprintf_leaf_noninterference_hk fuel env f a1 a2 o1 o2 :
+  osane (orc env) -> (hk = false -> hook env = None) -> no_star f = true -> Forall2 lrel a1 a2 ->
+  sprintf fuel env f a1 = ROk o1 -> sprintf fuel env f a2 = ROk o2 ->
+  forall ops1 ops2, o_log o1 = ops1 ++ [OTake] -> o_log o2 = ops2 ++ [OTake] ->
+  rawok ops1 = true -> ptail_ok_from init ops1 = true -> ptail_ok_from init ops2 = true ->
+  Markers.redact_b (o_bytes o1) = Markers.redact_b (o_bytes o2).
+Proof. intros Ho Hh Hns Ha. apply sprintf_tree_noninterference_hk; auto. now apply lrel_vrel_list. Qed.
+
+Theorem sprint_leaf_noninterference_hk fuel env a1 a2 o1 o2 :
+  osane (orc env) -> (hk = false -> hook env = None) -> Forall2 lrel a1 a2 ->
+  sprint fuel env a1 = ROk o1 -> sprint fuel env a2 = ROk o2 ->
+  forall ops1 ops2, o_log o1 = ops1 ++ [OTake] -> o_log o2 = ops2 ++ [OTake] ->
+  rawok ops1 = true -> ptail_ok_from init ops1 = true -> ptail_ok_from init ops2 = true ->
+  Markers.redact_b (o_bytes o1) = Markers.redact_b (o_bytes o2).
+Proof. intros Ho Hh Ha. apply sprint_tree_noninterference_hk; auto. now apply lrel_vrel_list. Qed.
+End HK.
+
+(* ---------- the statements, with the hook flag tied to the environment ---------- *)
+Definition hooked (e : env) : bool := match hook e with Some _ => true | None => false end.
+Lemma hooked_spec e : hooked e = false -> hook e = None.
+Proof. unfold hooked. destruct (hook e); [discriminate | reflexivity]. Qed.
+
+(* Non-interference of Sprintf / Sprint for operands printed by reflection and by string-returning
+   methods: Redact() of the two results is byte-identical *)
+Theorem sprintf_tree_noninterference fuel env f a1 a2 o1 o2 :
+  osane (orc env) -> no_star f = true -> Forall2 (vrel (hooked env)) a1 a2 ->
+  sprintf fuel env f a1 = ROk o1 -> sprintf fuel env f a2 = ROk o2 ->
+  forall ops1 ops2, o_log o1 = ops1 ++ [OTake] -> o_log o2 = ops2 ++ [OTake] ->
+  rawok ops1 = true -> ptail_ok_from init ops1 = true -> ptail_ok_from init ops2 = true ->
+  Markers.redact_b (o_bytes o1) = Markers.redact_b (o_bytes o2).
+Proof. intros Ho. apply (sprintf_tree_noninterference_hk (hooked env)); [exact Ho | apply hooked_spec]. Qed.
+
+Theorem sprint_tree_noninterference fuel env a1 a2 o1 o2 :
+  osane (orc env) -> Forall2 (vrel (hooked env)) a1 a2 ->
+  sprint fuel env a1 = ROk o1 -> sprint fuel env a2 = ROk o2 ->
+  forall ops1 ops2, o_log o1 = ops1 ++ [OTake] -> o_log o2 = ops2 ++ [OTake] ->
+  rawok ops1 = true -> ptail_ok_from init ops1 = true -> ptail_ok_from init ops2 = true ->
+  Markers.redact_b (o_bytes o1) = Markers.redact_b (o_bytes o2).
+Proof. intros Ho. apply (sprint_tree_noninterference_hk (hooked env)); [exact Ho | apply hooked_spec]. Qed.
 
 Theorem sprintf_leaf_noninterference fuel env f a1 a2 o1 o2 :
   osane (orc env) -> no_star f = true -> Forall2 lrel a1 a2 ->
@@ -1680,7 +1860,7 @@ Theorem sprintf_leaf_noninterference fuel env f a1 a2 o1 o2 :
   forall ops1 ops2, o_log o1 = ops1 ++ [OTake] -> o_log o2 = ops2 ++ [OTake] ->
   rawok ops1 = true -> ptail_ok_from init ops1 = true -> ptail_ok_from init ops2 = true ->
   Markers.redact_b (o_bytes o1) = Markers.redact_b (o_bytes o2).
-Proof. intros Ho Hns Ha. apply sprintf_tree_noninterference; auto. now apply lrel_vrel_list. Qed.
+Proof. intros Ho. apply (sprintf_leaf_noninterference_hk true); [exact Ho | discriminate]. Qed.
 
 Theorem sprint_leaf_noninterference fuel env a1 a2 o1 o2 :
   osane (orc env) -> Forall2 lrel a1 a2 ->
@@ -1688,5 +1868,7 @@ Theorem sprint_leaf_noninterference fuel env a1 a2 o1 o2 :
   forall ops1 ops2, o_log o1 = ops1 ++ [OTake] -> o_log o2 = ops2 ++ [OTake] ->
   rawok ops1 = true -> ptail_ok_from init ops1 = true -> ptail_ok_from init ops2 = true ->
   Markers.redact_b (o_bytes o1) = Markers.redact_b (o_bytes o2).
-Proof. intros Ho Ha. apply sprint_tree_noninterference; auto. now apply lrel_vrel_list. Qed.
+Proof. intros Ho. apply (sprint_leaf_noninterference_hk true); [exact Ho | discriminate]. Qed.
+Print Assumptions sprintf_tree_noninterference.
+Print Assumptions sprint_tree_noninterference.
 Print Assumptions sprintf_leaf_noninterference.
